@@ -61,7 +61,7 @@ def run(ctx, factor):
     cwd = os.path.join(sc.dir, "cli")
     os.makedirs(cwd, exist_ok=True)
     obj = objfuzz.assemble(sc, [(".text", [0x55, 0x48, 0x89, 0xe5, 0xe8, 0, 0, 0, 0, 0x50, 0x58, 0x5d, 0xc3])], name="c20")
-    for it in range(ctx.budget(16, 200) * factor):
+    for it in range(ctx.budget(24, 200) * factor):
         # every fourth case: one-item rule on a listing that repeats the same records, all matches requested
         # (consecutive identical `Matched address` lines must all be logged)
         repeated = it % 4 == 0
